@@ -23,8 +23,9 @@ Decided (DESIGN.md section 5, C06):
            M4-ensure-pop-paired            (PBF) ensure(n) ... pop(n) pairwise with the same n, reads of the carry-over between
                                            them use the same n, no read after the pop
            M5-refill-until-needed          the refill loop pops pieces while `carry.size() < needed`, and the refill method reports
-                                           success only through an edge on which `size >= needed` (or the window test) holds --
-                                           a loop left by the size test, not a single `if`
+                                           constant success only through an edge on which `size >= needed` (or the window test)
+                                           holds and returns at all only through such an edge or an input_done()==true edge --
+                                           a loop left by the size test or at end of input, not a single `if`
            M6-held-bytes-delivered         (OPL) bytes put into the local carry-over reach the consumer on every path to the exit
  clause 3  E1-refill-cycle-tests-end-of-input   every cycle through get_input() passes an edge on which input_done() is false
            E2-failure-exit-guarded-by-end-of-input  "truncated" exits of refill methods are guarded by input_done() == true
@@ -50,23 +51,17 @@ from ..flow import guards_of, path_search, describe_path, forward_may
 from ..stale import Stale
 
 KNOWN = [
-    # (rule, key, explanation) -- genuine findings on the pristine tree (DESIGN.md section 7, F2); reported with R.bad
-    ('W1-window-rederived', 'osmium::io::detail::O5mParser::m_data',
-     'F2: O5mParser::ensure_bytes_available() returns false after m_input.erase() (and possibly append()) without re-pointing '
-     'm_data/m_end into m_input; decode_data() ignores the result of ensure_bytes_available(protozero::max_varint_length) and goes '
-     'on reading through the stale window.  Concrete input: a valid 17-byte o5m file (7-byte header + one 9-byte node dataset + '
-     'nothing else) delivered in one piece: after the type byte fewer than 10 bytes remain, input is done, the consumed prefix is '
-     'erased, get_input() yields the end marker, return false with m_data still pointing 8 bytes into the (now shorter) string -> '
-     'decode_varint reads the wrong bytes: "premature end of file" for a valid file (replayed, DESIGN.md section 7 F2).'),
-    ('W1-window-rederived', 'osmium::io::detail::O5mParser::m_end',
-     'F2, same defect seen from the end pointer: m_end is left pointing behind the erased/relocated string on the `return false` '
-     'exit and is then used as the bound of protozero::decode_varint(&m_data, m_end) in decode_data().  A fix must re-derive both '
-     'pointers (re-deriving m_data alone leaves an end pointer that no longer belongs to the string).'),
+    # (rule, key, explanation) -- genuine findings on the current tree, reported with R.bad.  None at present.
 ]
+# History: F2 (DESIGN.md section 7) was reported by W1-window-rederived under the keys osmium::io::detail::O5mParser::m_data and
+# ...::m_end (ensure_bytes_available() returned false after m_input.erase() without re-pointing the window; a valid 17-byte o5m
+# file was rejected with "premature end of file").  Fixed in /repo by a950292 (`break` + re-derivation of both pointers before the
+# single `return m_input.size() >= need_bytes`); the two mutants o5m-window-end-not-rederived / o5m-eof-exit-skips-rederive are
+# the partial / reverted fix
 
 EXPLANATION = (
     'Decided: (1) o5m input window: pointer members aliasing the carry-over string are re-derived after every relocating call '
-    'before each normal exit (STALE engine; reports the known defect F2), every caller of the refill method branches on its result '
+    'before each normal exit (STALE engine; this rule found defect F2, fixed by a950292), every caller of the refill method branches on its result '
     'and reads the window only through end-bounded calls where the result is false/ignored, no local pointer into a piece or '
     'carry-over survives a mutation; (2) carry-over mutation discipline for PBFParser::m_input_buffer, O5mParser::m_input and the '
     'local remainder of line_by_line (whitelist of mutation shapes, every popped piece kept whole / suffix-kept / fed, erase amount '
@@ -702,6 +697,21 @@ def _success_implies_enough(fn, R, carrier, need, wins):
             'be a loop that is left only through the size test; with a single `if` a request that spans three or more pieces returns '
             'with too few bytes: %s' % (fn.q, name, need['name'], describe_path(fn, wit)),
             'success only through an edge asserting %s.size() >= %s' % (name, need['name']))
+
+    # the method gives up only at end of input: every normal exit (whatever it returns -- callers read `false` as "premature end
+    # of file") is reached through an edge on which enough bytes are there or input_done() is true.  With `return size() >= need`
+    # a single `if` instead of the loop does not over-read any more, but it returns false in the middle of the stream when the
+    # request spans three or more pieces: the result depends on the cut positions.
+    dp = _done_pred_for(fn)
+    wit = path_search(fn, fn.entry, lambda e: _exit_t(e), lambda e: _is_throw(fn, e),
+                      _normal_edges(fn, lambda b, idx, s: not enough_edge(b, idx) and _edge_value(fn, b, idx, dp) is not True),
+                      from_block_start=True)
+    R.check(wit is None, 'M5-refill-until-needed', '%s#gives-up-only-at-end-of-input' % fn.q, fn.site,
+            '%s can return although neither `%s.size() >= %s` (or the window test) nor input_done() == true was established on that '
+            'path -- the refill must be a loop left only through the size test or at end of input; with a single `if` a request that '
+            'spans three or more pieces is answered "not enough bytes" (= premature end of file for the callers) in the middle of the '
+            'stream: %s' % (fn.q, name, need['name'], describe_path(fn, wit)),
+            'every normal exit passes an edge asserting enough bytes or end of input')
 
 
 def carry_rules(fb, R, M=None, wins=None):
@@ -1350,10 +1360,10 @@ def run(ctx):
     R.expect('M2-piece-kept', 4)                     # PBF, o5m, OPL, XML pops
     R.expect('M3-erase-is-consumed-prefix', 2)       # o5m erase(0, m_data - data()), PBF erase(0, size)
     R.expect('M4-ensure-pop-paired', 6)              # 3 ensure sites + 3 pop sites in PBFParser
-    R.expect('M5-refill-until-needed', 4)            # PBF ensure_available_in_input_queue, o5m ensure_bytes_available: condition + success-implies-enough
+    R.expect('M5-refill-until-needed', 6)            # PBF ensure_available_in_input_queue, o5m ensure_bytes_available: condition, success-implies-enough, gives-up-only-at-end-of-input
     R.expect('M6-held-bytes-delivered', 1)           # line_by_line rest
     R.expect('E1-refill-cycle-tests-end-of-input', 4)
-    R.expect('E2-failure-exit-guarded-by-end-of-input', 2)  # 3 before the F2 fix removed one failure exit from ensure_bytes_available  # PBF throw; o5m return false x2
+    R.expect('E2-failure-exit-guarded-by-end-of-input', 2)  # PBF throw after the pop; o5m `return false` before the pop (3 before the F2 fix a950292)
     R.expect('X2-xml-final-flag-from-queue-state', 1)
     R.expect('X3-xml-parse-args', 1)
     R.expect('T1-read-thread-forwards-piece', 1)
